@@ -284,6 +284,10 @@ func TestPinnedRows(t *testing.T) {
 	check(m.lock == "unknown", "releaser dropped: the lock stays held", m)
 	m = hm("H", "NegLockOfDerivedInstance")
 	check(m.mutex == "H.mu" && has(m, "v", "assign", "none", "H.mu"), "lock of another instance is named by type+field", m)
+	m = get("PosMethodValueAsCallback")
+	check(m.lock == "write" && has(m, "b", "assign", "write", "") && has(m, "list", "read", "write", ""), "method value as callback under the lock", m)
+	m = get("NegMethodValueCallbackWithoutLock")
+	check(has(m, "b", "assign", "none", ""), "method value as callback without the lock", m)
 	m = get("NegGoroutineWrites")
 	check(has(m, "a", "assign", "none", ""), "a goroutine's write is unlocked", m)
 	m = get("NegPreludeTouchesState")
